@@ -27,8 +27,8 @@ POS_TOL = 1e-9  # positions: |p' - M p| <= POS_TOL * (1 + max|coordinate|); meas
 LEN_TOL = 1e-7  # lengths: relative (library TOL); measured worst case 3e-12 (arcs), 1e-15 (polylines)
 ARC_TOL = 1e-7  # third point on the image circle: relative to the radius; measured worst case 2e-13
 DIR_TOL = 1e-9  # unit direction vectors
-CURVE_TOL = 2e-3  # OnCurve edges: end parameters come out of scipy's L-BFGS-B on a V-shaped objective (measured
-#                   worst case 6e-6 relative to the chord over 4000 cases); relative to the chord
+CURVE_TOL = 1e-5  # OnCurve edges: end parameters come out of scipy's L-BFGS-B on a V-shaped objective; control points
+#                   relative to the chord (measured worst case 9.2e-9 over 3000 cases), length 10 x that (1.4e-8)
 COPY_TOL = 1e-12  # a deep copy must reproduce the geometry (same arithmetic on the same numbers)
 
 SWAP = [4, 5, 6, 7, 0, 1, 2, 3]  # Operation.mirror() swaps bottom and top face
@@ -76,6 +76,12 @@ def point3(lim: float):
     return st.lists(fl(-lim, lim), min_size=3, max_size=3)
 
 
+def point3_nz(lim: float):
+    """a point away from the origin (Hypothesis favours zeros: a coordinate below 1e-3 is replaced)"""
+    return st.lists(fl(-lim, lim), min_size=3, max_size=3).map(
+        lambda v: [c if abs(c) > 1e-3 else 1.25 + 0.5 * i for i, c in enumerate(v)])
+
+
 @st.composite
 def frames(draw, size=(0.5, 3.0)):
     """placement of an entity that is defined in local coordinates: p -> o + size * R(ax, ang) p"""
@@ -103,18 +109,22 @@ class Frame:
 TKINDS = ("translate", "rotate", "scale", "mirror")
 
 
-def origins(allow_none: bool):
-    opts = [point3(10)] * 6 + [st.just([0.0, 0.0, 0.0])]
-    if allow_none:
-        opts.append(st.none())
-    return st.one_of(*opts)
+@st.composite
+def origins(draw, allow_none: bool):
+    """mostly a general point away from 0; sometimes exactly 0; the default origin where it is well defined"""
+    k = draw(st.integers(0, 11))
+    if k == 0:
+        return [0.0, 0.0, 0.0]
+    if k == 11 and allow_none:
+        return None
+    return draw(point3_nz(10))
 
 
 @st.composite
 def tf_one(draw, kind: str, default_origin_ok: bool, composed: bool = False):
     via = draw(st.sampled_from(["m", "l"]))
     if kind == "translate":
-        return {"k": kind, "via": via, "d": draw(point3(10))}
+        return {"k": kind, "via": via, "d": draw(st.one_of(point3_nz(10), point3_nz(10), point3(10)))}
     if kind == "rotate":
         ang = draw(fl(0.05, 6.2)) * draw(st.sampled_from([1, -1]))
         return {"k": kind, "via": via, "angle": ang, "axis": draw(direction()), "origin": draw(origins(default_origin_ok))}
@@ -161,6 +171,8 @@ class Applied:
         self.M = np.eye(4)
         self.s = 1.0
         self.parity = 0
+        self.mirrors = 0
+        self.inverting_mirrors = 0  # mirror steps documented to swap bottom and top (see INVERTS)
         self.normals_unit = True
         self.default_origin = False
         self.kinds: List[str] = []
@@ -171,6 +183,12 @@ def _arr(x):
     return None if x is None else np.array(x, dtype=float)
 
 
+# which mirror steps swap bottom and top face of the operations (Operation.mirror docstring; Operation.transform
+# warns that it does not): receiver is an Operation -> method calls only; receiver holds operations -> every mirror;
+# faces, edge data and sketches are put into lofts by the harness -> never
+INVERTS = {"op": "method", "shape": "always", "stack": "always", "joint": "always"}
+
+
 def apply_tf(ent, tf: List[dict], facts: dict) -> Applied:
     """Applies the steps to `ent` through the library (by method or as transform([...]) groups of consecutive
     'l' steps), with numpy arrays as arguments; checks that the arrays are left bit-identical."""
@@ -179,17 +197,13 @@ def apply_tf(ent, tf: List[dict], facts: dict) -> Applied:
     while i < len(tf):
         group = [tf[i]]
         if tf[i]["via"] == "l":
-            # a default origin is re-read by transform() before each element: keep such steps in their own call
-            while (
-                i + len(group) < len(tf)
-                and tf[i + len(group)]["via"] == "l"
-                and tf[i + len(group)].get("origin", 0) is not None
-                and group[-1].get("origin", 0) is not None
-            ):
+            while i + len(group) < len(tf) and tf[i + len(group)]["via"] == "l":
                 group.append(tf[i + len(group)])
         needs_center = any(t["k"] in ("rotate", "scale") and t["origin"] is None for t in group)
         center = None
         if needs_center:
+            # documented default origin: the entity's center.  transform() re-reads it before every element of the
+            # list; a center is a point of the entity, so after the first j elements it is their image of `center`
             center = np.array(ent.center, dtype=float)
             if center.shape != (3,):
                 raise Violation("center-not-a-point", f"center is {center!r}", **facts)
@@ -242,37 +256,44 @@ def apply_tf(ent, tf: List[dict], facts: dict) -> Applied:
                         "argument-mutated", f"{t['k']} (via {t['via']}) changed its '{name}' argument {b[name]} -> {v}",
                         step=t["k"], argument=name, **facts,
                     )
+        within = np.eye(4)
         for t in group:
-            m, s, par = tf_matrix(t, center)
+            m, s, par = tf_matrix(t, None if center is None else rm.apply(within, center))
+            within = m @ within
             out.M = m @ out.M
             out.s *= s
             out.parity ^= par
+            out.mirrors += par
+            how = INVERTS.get(facts.get("family"), "never")
+            if par and (how == "always" or (how == "method" and t["via"] == "m")):
+                out.inverting_mirrors += 1
             out.kinds.append(t["k"])
             out.vias.append(t["via"])
         i += len(group)
     return out
 
 
+def _step_nontrivial(t: dict) -> Tuple[bool, bool]:
+    """(the step is away from the identity, the step is non-trivial by the rule of the property's design:
+    origin != 0 and the axis/normal is non-unit or not axis-aligned; translations: d != 0; scale: ratio != 1)"""
+    k = t["k"]
+    if k == "translate":
+        moved = nrm(t["d"]) > 1e-6
+        return moved, moved
+    o = t["origin"]
+    off_origin = o is None or nrm(o) > 1e-6
+    if k == "scale":
+        moved = abs(t["ratio"] - 1) > 1e-3
+        return moved, moved and off_origin
+    v = t["axis"] if k == "rotate" else t["normal"]
+    return True, off_origin and (not is_unit(v) or not is_aligned(v))
+
+
 def tf_nontrivial(tf: List[dict]) -> bool:
-    """NT rule: every step is away from the identity, origins are != 0 and axes/normals are neither unit nor
-    axis-aligned (translations: displacement != 0)."""
-    for t in tf:
-        k = t["k"]
-        if k == "translate":
-            if nrm(t["d"]) < 1e-6:
-                return False
-            continue
-        o = t["origin"]
-        if o is not None and nrm(o) < 1e-6:
-            return False
-        if k == "scale":
-            if abs(t["ratio"] - 1) < 1e-3:
-                return False
-            continue
-        v = t["axis"] if k == "rotate" else t["normal"]
-        if is_unit(v) or is_aligned(v):
-            return False
-    return True
+    """NT rule: no step is the identity and at least one step has origin != 0 with a non-unit or not axis-aligned
+    axis/normal (translation: d != 0, scale: ratio != 1 about an origin != 0)."""
+    flags = [_step_nontrivial(t) for t in tf]
+    return all(a for a, _ in flags) and any(b for _, b in flags)
 
 
 def tf_labels(tf: List[dict]) -> List[str]:
@@ -372,8 +393,8 @@ def edge_spec(draw, kind: str):
                 "flat": draw(st.one_of(st.just(1), st.just(1.0), fl(0.7, 3.0)))}
     if kind == "angle":
         theta = draw(st.one_of(fl(0.2, 2.8), fl(0.2, 2.8), fl(3.4, 5.5))) * draw(st.sampled_from([1, -1]))
-        return {"kind": "angle", "theta": theta, "phi": draw(_phi), "tilt": draw(st.one_of(st.just(0.0), fl(-0.3, 0.3))),
-                "mag": draw(st.sampled_from([1.0, 0.5, 2.5]))}
+        # the axis is perpendicular to the chord (a rotation about an axis, as Revolve produces it)
+        return {"kind": "angle", "theta": theta, "phi": draw(_phi), "mag": draw(st.sampled_from([1.0, 0.5, 2.5]))}
     if kind in ("spline", "polyline"):
         return {"kind": kind, "pts": draw(_rel_points())}
     if kind == "project":
@@ -399,14 +420,15 @@ def make_edge(spec, a, b):
     if kind == "origin":
         return cb.Origin(a + c / 2 + _off(spec["h"], spec["phi"], length, u, v) + t * length * spec["delta"], spec["flat"])
     if kind == "angle":
-        axis = (math.cos(spec["phi"]) * u + math.sin(spec["phi"]) * v + spec["tilt"] * t) * spec["mag"]
+        axis = (math.cos(spec["phi"]) * u + math.sin(spec["phi"]) * v) * spec["mag"]
         return cb.Angle(spec["theta"], axis)
     pts = _abs_points(spec["pts"], a, c, length, u, v)
     return cb.Spline(pts) if kind == "spline" else cb.PolyLine(pts)
 
 
 def spec_curved(spec) -> bool:
-    return spec is not None and spec["kind"] != "project" and not (spec["kind"] == "oncurve" and spec["curve"] == "line")
+    """the edge has a shape of its own (a projected edge has none in the model: it counts as carried)"""
+    return spec is not None and not (spec["kind"] == "oncurve" and spec["curve"] == "line")
 
 
 # --------------------------------------------------------------------------------------------------
@@ -450,19 +472,22 @@ def geo_of(addables, facts: dict, what: str) -> Geo:
             warnings.simplefilter("ignore")
             mesh.assemble()
             seen = set()
+            lengths: Dict[int, float] = {}  # OnCurve lengths cost four scipy minimisations each: once per edge object
             for bi, block in enumerate(mesh.blocks):
                 g.pos.append(np.array([v.position for v in block.vertices], dtype=float))
                 g.proj.append([sorted(_lab(lb) for lb in v.projected_to) for v in block.vertices])
                 wires = {}
                 for c1, c2 in PAIRS12:
                     e = block.wires[c1][c2].edge
-                    wires[frozenset((c1, c2))] = (e.kind, float(e.length))
+                    if id(e) not in lengths:
+                        lengths[id(e)] = float(e.length)
+                    wires[frozenset((c1, c2))] = (e.kind, lengths[id(e)])
                     if e.kind == "line" or id(e) in seen:
                         continue
                     seen.add(id(e))
                     rec = {"kind": e.kind, "loc": "side" if abs(c1 - c2) == 4 else "face", "block": bi,
                            "corners": sorted((c1, c2)), "v1": np.array(e.vertex_1.position), "v2": np.array(e.vertex_2.position),
-                           "length": float(e.length), "valid": bool(e.is_valid)}
+                           "length": lengths[id(e)], "valid": bool(e.is_valid)}
                     if e.kind in ARC_KINDS:
                         rec["third"] = np.array(e.third_point.position, dtype=float)
                         if e.kind == "angle":
@@ -519,7 +544,8 @@ def compare(g0: Geo, g1: Geo, ap: Applied, shared: Optional[set] = None, pos_tol
     worst = 0.0
     for bi, (p0, p1) in enumerate(zip(g0.pos, g1.pos)):
         ref = rm.apply(M, p0)
-        cands = [IDENT] + ([SWAP] if ap.parity else [])
+        # every Operation.mirror() swaps bottom and top, a Mirror in Operation.transform([...]) does not
+        cands = [IDENT] + ([SWAP] if ap.mirrors else [])
         best = None
         for mp in cands:
             err = np.linalg.norm(p1 - ref[mp], axis=1)
@@ -527,7 +553,7 @@ def compare(g0: Geo, g1: Geo, ap: Applied, shared: Optional[set] = None, pos_tol
             if best is None or len(bad) < len(best[1]):
                 best = (mp, bad, float(np.max(err)))
         maps.append(best[0])
-        if ap.parity:
+        if ap.mirrors:
             labels.append("numbering=swapped" if best[0] is SWAP else "numbering=kept")
         bad_all.extend((bi, i) for i in best[1])
         bad_orig.extend((bi, best[0][i]) for i in best[1])
@@ -603,8 +629,11 @@ def _compare_edge(r0: dict, r1: dict, ap: Applied, tol: float, swapped: bool, le
         side = np.cross(normal, b - a)
         same_side = float((p - a) @ side) * float((third - a) @ side) > 0
         if off_r > ARC_TOL * radius + tol or off_n > ARC_TOL * radius + tol or not same_side:
+            # a reflected axis with the same angle turns the other way; swapping bottom and top reverses side edges,
+            # which turns them back
             cause = None
-            if kind == "angle" and ap.parity and (r0["loc"] == "face" or not swapped):
+            as_documented = swapped == bool(ap.inverting_mirrors % 2)
+            if kind == "angle" and as_documented and (ap.parity ^ int(swapped and r0["loc"] == "side")):
                 cause = "angle-sense-under-mirror"
             return Disc(
                 "arc-shape", f"{where}: third point {p} is {'on the other side of the chord' if not same_side else 'off the circle'}"
@@ -614,7 +643,7 @@ def _compare_edge(r0: dict, r1: dict, ap: Applied, tol: float, swapped: bool, le
         if kind == "angle":
             want = rm.unit(rm.apply_dir(M, r0["axis"]))
             got = rm.unit(r1["axis"])  # a direction: its magnitude is not judged here (the arc shape above is)
-            err = min(nrm(got - want), nrm(got + want)) if ap.parity else nrm(got - want)
+            err = min(nrm(got - want), nrm(got + want)) if ap.mirrors else nrm(got - want)
             if err > DIR_TOL:
                 return Disc("axis-direction", f"{where}: axis {got} is not the rotated/reflected axis {want}", axis_error=err, **base)
     elif kind in PT_KINDS or kind == "curve":
@@ -624,7 +653,8 @@ def _compare_edge(r0: dict, r1: dict, ap: Applied, tol: float, swapped: bool, le
         ptol = tol if kind in PT_KINDS else CURVE_TOL * nrm(b - a)
         if r1["pts"].shape != ref.shape or _maxerr(r1["pts"], ref) > ptol:
             if r1["pts"].shape == ref.shape and _maxerr(r1["pts"], ref[::-1]) <= ptol:
-                cause = "side-edge-kept-order-after-invert" if (r0["loc"] == "side" and swapped and rev) else None
+                as_documented = swapped == bool(ap.inverting_mirrors % 2)
+                cause = "side-edge-kept-order-after-invert" if (r0["loc"] == "side" and swapped and rev and as_documented) else None
                 return Disc("point-order-reversed", f"{where}: control points run from the edge's second vertex to its first",
                             cause=cause, **base)
             cause = None
@@ -769,7 +799,7 @@ def realize_face(face, M, aux):
 
 
 def _face_curved(p):
-    return any(spec_curved(e) for e in p["edges"])
+    return any(spec_curved(e) for e in p["edges"]) or all(e is None for e in p["edges"])  # face-line: no edge by design
 
 
 def _edge_labels(specs) -> List[str]:
@@ -787,7 +817,7 @@ def _edge_labels(specs) -> List[str]:
 
 for _k in [None, *EDGE_KINDS, "mixed"]:
     _reg(Ent(f"face-{_k or 'line'}", "face", face_params(_k), build_face, realize_face, prep_face,
-             curved=_face_curved, quick=40, labels=lambda p: ["closing-edge"] * (p["edges"][3] is not None) + _edge_labels(p["edges"])))
+             curved=_face_curved, quick=24 if _k in ("oncurve", "mixed") else 36, labels=lambda p: ["closing-edge"] * (p["edges"][3] is not None) + _edge_labels(p["edges"])))
 
 
 @st.composite
@@ -816,7 +846,7 @@ def realize_edge(data, M, aux):
 
 for _k in EDGE_KINDS:
     _reg(Ent(f"edge-{_k}", "edge", edge_params(_k), build_edge, realize_edge, prep_edge, default_origin_ok=False,
-             curved=lambda p: spec_curved(p["edge"]), quick=40,
+             curved=lambda p: spec_curved(p["edge"]), quick=24 if _k == "oncurve" else 36,
              labels=lambda p: ["closing-edge"] * (p["i"] == 3) + _edge_labels([p["edge"]])))
 
 
@@ -858,7 +888,7 @@ def _loft_labels(p):
 
 for _k in EDGE_KINDS:
     _reg(Ent(f"loft-{_k}", "op", loft_params(_k), build_loft, curved=lambda p: any(spec_curved(e) for e in p["edges"]),
-             quick=40, labels=_loft_labels))
+             quick=20 if _k == "oncurve" else 36, labels=_loft_labels))
 
 
 @st.composite
@@ -876,7 +906,7 @@ def build_extrude(params):
     return cb.Extrude(face, amount)
 
 
-_reg(Ent("extrude", "op", extrude_params(), build_extrude, curved=_face_curved, quick=40, labels=lambda p: _edge_labels(p["edges"])))
+_reg(Ent("extrude", "op", extrude_params(), build_extrude, curved=_face_curved, quick=30, labels=lambda p: _edge_labels(p["edges"])))
 
 
 @st.composite
@@ -918,12 +948,12 @@ def box_params(draw):
     return {"a": a, "b": [a[i] + draw(fl(0.3, 3.0)) * draw(st.sampled_from([1, -1])) for i in range(3)]}
 
 
-_reg(Ent("box", "op", box_params(), lambda p: cb.Box(p["a"], p["b"]), curved=lambda p: False, quick=40))
+_reg(Ent("box", "op", box_params(), lambda p: cb.Box(p["a"], p["b"]), quick=40))
 
 
 @st.composite
 def series_params(draw):
-    n = draw(st.integers(3, 6))
+    n = draw(st.sampled_from([3, 4, 3, 5, 6]))  # 3 faces: Arc side edges, more: Spline
     return {"frame": draw(frames()), "faces": [draw(quad_local(-0.5 + k / (n - 1), jitter=0.1)) for k in range(n)],
             "bend": draw(fl(-0.5, 0.5))}
 
@@ -958,7 +988,7 @@ def realize_sketch(sk, M, aux):
     return [cb.Loft(f, cb.Face(rm.apply(M, t))) for f, t in zip(faces, aux["tops"])]
 
 
-def _sk(name, strategy, build, quick=20, curved=lambda p: True, labels=lambda p: []):
+def _sk(name, strategy, build, quick=14, curved=lambda p: True, labels=lambda p: []):
     _reg(Ent(name, "sketch", strategy, build, realize_sketch, prep_sketch, curved=curved, quick=quick, labels=labels))
 
 
@@ -969,7 +999,7 @@ def grid_params(draw):
             "n2": draw(st.integers(1, 3))}
 
 
-_sk("sk-grid", grid_params(), lambda p: cb.Grid(p["a"], p["b"], p["n1"], p["n2"]), curved=lambda p: False)
+_sk("sk-grid", grid_params(), lambda p: cb.Grid(p["a"], p["b"], p["n1"], p["n2"]))
 
 
 @st.composite
@@ -985,7 +1015,7 @@ def _disk(cls):
 
 
 for _n, _c in [("onecore", cb.OneCoreDisk), ("quarter", QuarterDisk), ("half", cb.HalfDisk), ("fourcore", cb.FourCoreDisk)]:
-    _sk(f"sk-{_n}", disk_params(), _disk(_c))
+    _sk(f"sk-{_n}", disk_params(), _disk(_c), quick={"fourcore": 8, "half": 10}.get(_n, 14))
 
 
 @st.composite
@@ -1000,7 +1030,7 @@ def build_wrapped(p):
     return cb.WrappedDisk(fr.p([0, 0, 0]), corner, radius, fr.d([0, 0, 1]) * p["nmag"])
 
 
-_sk("sk-wrapped", wrapped_params(), build_wrapped)
+_sk("sk-wrapped", wrapped_params(), build_wrapped, quick=10)
 
 
 @st.composite
@@ -1013,7 +1043,7 @@ def build_oval(p):
     return cb.Oval(fr.p([0, 0, 0]), fr.p([p["l"], 0, 0]), fr.d([0, 0, 1]), p["r"] * fr.s)
 
 
-_sk("sk-oval", oval_params(), build_oval)
+_sk("sk-oval", oval_params(), build_oval, quick=7)
 
 
 @st.composite
@@ -1028,7 +1058,7 @@ def build_annulus(p):
     return Annulus(fr.p([0, 0, 0]), fr.p([p["r"], 0, 0]), fr.d([0, 0, 1]), p["ri"] * p["r"] * fr.s, p["n"])
 
 
-_sk("sk-annulus", annulus_params(), build_annulus)
+_sk("sk-annulus", annulus_params(), build_annulus, quick=10)
 
 
 @st.composite
@@ -1049,7 +1079,7 @@ def build_mapped(p):
     return cb.MappedSketch(fr.p(p["nodes"]), _mapped_quads(p["n1"], p["n2"]))
 
 
-_sk("sk-mapped", mapped_params(), build_mapped, curved=lambda p: False)
+_sk("sk-mapped", mapped_params(), build_mapped)
 
 
 @st.composite
@@ -1084,13 +1114,14 @@ def _sround(cls, ring):
 
 for _n, _c, _r in [("qsdisk", cb.QuarterSplineDisk, False), ("hsdisk", cb.HalfSplineDisk, False), ("sdisk", cb.SplineDisk, False),
                    ("qsring", cb.QuarterSplineRing, True), ("hsring", cb.HalfSplineRing, True), ("sring", cb.SplineRing, True)]:
-    _sk(f"sk-{_n}", sround_params(_r), _sround(_c, _r), quick=16, labels=lambda p: ["shape=" + p["shape"]])
+    _sk(f"sk-{_n}", sround_params(_r), _sround(_c, _r), quick=8 if _n in ("sdisk", "sring") else 12,
+        labels=lambda p: ["shape=" + p["shape"]])
 
 
 # ---- shapes --------------------------------------------------------------------------------------
 
 
-def _sh(name, strategy, build, quick=14, curved=lambda p: True, labels=lambda p: [], family="shape"):
+def _sh(name, strategy, build, quick=10, curved=lambda p: True, labels=lambda p: [], family="shape"):
     _reg(Ent(name, family, strategy, build, curved=curved, quick=quick, labels=labels))
 
 
@@ -1184,7 +1215,7 @@ def build_hemi(p):
     return cb.Hemisphere(fr.p([0, 0, 0]), fr.p([p["r"], 0, 0]), fr.d([0, 0, 1]) * p["nmag"])
 
 
-_sh("hemisphere", hemi_params(), build_hemi, quick=12)
+_sh("hemisphere", hemi_params(), build_hemi, quick=8)
 
 
 @st.composite
@@ -1202,7 +1233,7 @@ def build_shell(p):
     return cb.Shell(faces, p["amount"] * fr.s)
 
 
-_sh("shell", shell_params(), build_shell, curved=lambda p: False)
+_sh("shell", shell_params(), build_shell)
 
 
 @st.composite
@@ -1290,6 +1321,6 @@ def _joint(cls):
     return build
 
 
-_sh("ljoint", joint_params([2]), _joint(cb.LJoint), quick=6, family="joint")
-_sh("tjoint", joint_params([3]), _joint(cb.TJoint), quick=5, family="joint")
-_sh("njoint", joint_params([3, 4, 5]), _joint(cb.NJoint), quick=4, family="joint", labels=lambda p: [f"branches={p['branches']}"])
+_sh("ljoint", joint_params([2]), _joint(cb.LJoint), quick=4, family="joint")
+_sh("tjoint", joint_params([3]), _joint(cb.TJoint), quick=3, family="joint")
+_sh("njoint", joint_params([3, 4, 5]), _joint(cb.NJoint), quick=3, family="joint", labels=lambda p: [f"branches={p['branches']}"])
